@@ -302,6 +302,11 @@ def o_keys():
                m("close_run", run=A), m("close_run", run=B))
 
 
+def o_keys_left_open():
+    # two keyed runs still open when the plan ends: the engine's clean-up has to close each of them on its own
+    return seq(m("open_run", run=A), m("open_run", run=B), m("checkpoint"), *bundle(run=A), *bundle(run=B), m("null"))
+
+
 def o_guarded():
     # the plan survives the failing message and closes its run itself
     return seq(["tryexc", seq(m("open_run"), m("checkpoint"), *bundle()), seq(m("null"))], m("null"),
@@ -311,7 +316,7 @@ def o_guarded():
 def gen_subscribers(rng, tier):
     """(a) a consumer raising on each document kind, exceptions not ignored / ignored"""
     out = []
-    for pi, t in enumerate((o_two_runs, o_left_open, o_keys, o_guarded)):
+    for pi, t in enumerate((o_two_runs, o_left_open, o_keys, o_guarded, o_keys_left_open)):
         plan = t()
         for kind in ("start", "descriptor", "event", "stop"):
             for nth in (0, 1):
